@@ -79,6 +79,14 @@ def step (s : St) (w : List String) : St × String :=
     match parseTxs? ts with
     | some ts => reply s (Pool.step s.fixed s.pool (.del ts))
     | none => (s, "bad-op")
+  | "side" :: ts =>
+    -- a block landed on a side branch: the engine calls `AddTx` for each of its txs that is not on the
+    -- current branch (same state as one `AddTxs` over them)
+    match parseTxs? ts with
+    | some ts =>
+      let r := Pool.step s.fixed s.pool (.adds ts)
+      ({ s with pool := r.1 }, "ok ; " ++ dump s.fixed r.1)
+    | none => (s, "bad-op")
   | "fork" :: ts =>
     -- `onCurrentChanged` on a fork switch: `AddTxs(oldForkTxs); DelTxs(newForkTxs)`
     match parseTxs? (ts.takeWhile (· != "/")), parseTxs? ((ts.dropWhile (· != "/")).drop 1) with
